@@ -1,9 +1,10 @@
-import NeumannModel.Rel.Preserve
+import NeumannModel.Rel.Extend
 /-
   C04 — property theorems: every execution strategy returns exactly the rows that satisfy the condition,
   in every reachable table state.  ONLY property statements and their non-vacuity examples live here;
-  helpers are in `Lemmas.lean` (strategies on a state with the index invariant) and `Preserve.lean`
-  (every operation preserves the invariant).
+  helpers are in `Lemmas.lean` (strategies on a state with the index invariant), `Preserve.lean`
+  (every operation preserves the invariant) and `Extend.lean` (UPDATE image, aggregates, derived strategies,
+  depth limit).
 -/
 namespace Neumann.Rel.Props
 open Neumann.Rel
@@ -104,15 +105,17 @@ theorem update_delete_touch_exactly (schema : List (ColType × Bool)) (ops : Lis
   refine ⟨delete_rows_eq t c hi.1, ?_, delete_preserves t c hi⟩
   simp [delete, matching, spec]
 
-/-- UPDATE with a condition reports exactly the number of rows for which the condition is true and keeps the
-    index invariant (so all strategies agree afterwards).  Partial: the statement that the new table image is
-    `rows.map (if matches then set-columns else id)` is not proved here (the per-row fold is; the closed form is
-    checked against the real engine and the model on every generated UPDATE by the `image` stream). -/
-theorem update_touch_exactly_partial (schema : List (ColType × Bool)) (ops : List Op) (c : Cond)
+/-- UPDATE with a condition rewrites exactly the rows for which the condition is true -- each of them gets the
+    SET columns overwritten and keeps every other column, every other slot (live or dead) is untouched --,
+    reports their number, keeps the schema and the index invariant (so all strategies agree afterwards) -/
+theorem update_touch_exactly (schema : List (ColType × Bool)) (ops : List Op) (c : Cond)
     (sets : List (Nat × Value)) (t' : Table) (n : Nat)
     (h : update (run schema ops) c sets = .ok (t', n)) :
+    t'.rows = (run schema ops).rows.map
+        (fun x => if matchesRow c x then { x with vals := applySetsFrom sets 0 x.vals } else x) ∧
     n = (spec (run schema ops) c).length ∧ IdxInv t' := by
-  refine ⟨?_, update_preserves _ c sets t' n (run_inv schema ops) h⟩
+  have hi := run_inv schema ops
+  refine ⟨update_rows_eq _ c sets t' n hi.1 h, ?_, update_preserves _ c sets t' n hi h⟩
   unfold update at h
   split at h
   · cases h
@@ -121,6 +124,136 @@ theorem update_touch_exactly_partial (schema : List (ColType × Bool)) (ops : Li
 
 example : (update (run demoSchema demoOps) (.rng .ge (.col 1) (.int 0)) [(1, .int 9)]).toOption.map (·.2) = some 1 := by
   decide
+
+/-- a rejected UPDATE (unknown column, wrong type, NULL into a NOT NULL column) changes nothing -/
+theorem update_rejected_changes_nothing (t : Table) (c : Cond) (sets : List (Nat × Value)) (e : Err)
+    (_h : update t c sets = .error e) : applyOp t (.update c sets) = t := by
+  simp only [applyOp, _h]
+
+example : update (run demoSchema demoOps) .tt [(0, .null)] = .error .nullNotAllowed := by decide
+
+/-- **aggregates touch exactly the matching rows**: in every reachable state the row records `select` hands to
+    `sum` / `avg` / `min` / `max` are exactly the live rows for which the condition is true, in id order --
+    whichever plan `select` took -- so the list of addends of `sum` / `avg` and the sequential `min` / `max`
+    folds are those of the specification; `count_column` (own fast path, index path and scan path) counts
+    exactly the matching rows whose column is not NULL.  (The f64 additions of `sum` / `avg` and the rayon
+    reduction used from 1000 selected rows on are outside the model.) -/
+theorem aggregates_touch_exactly (schema : List (ColType × Bool)) (ops : List Op) (i : Nat) (c : Cond) :
+    let t := run schema ops
+    selectRows t c = specRows t c ∧
+    aggSumTerms t i c = sumTerms i (specRows t c) ∧
+    aggMin t i c = extremeOf .lt i (specRows t c) ∧
+    aggMax t i c = extremeOf .gt i (specRows t c) ∧
+    (i < t.schema.length → countColumn t i c = .ok ((specRows t c).filter (nonNull i)).length) := by
+  intro t
+  have hi : IdxInv t := run_inv schema ops
+  obtain ⟨h1, h2, h3⟩ := aggregates_eq t hi i c
+  exact ⟨selectRows_eq_specRows t hi c, h1, h2, h3, countColumn_eq t hi i c⟩
+
+example : aggMin (run demoSchema demoOps) 1 (.rng .lt (.col 1) (.int 6)) = some (.int (-3)) := by decide
+example : aggMax (run demoSchema demoOps) 0 .tt = some (.float 9223372036854775808) := by decide
+example : aggSumTerms (run demoSchema demoOps) 1 .tt = [.int 5, .int (-3)] := by decide
+example : countColumn (run demoSchema demoOps) 1 (.eq (.col 0) (.float 0)) = .ok 1 := by decide
+
+/-- **derived strategies agree**: `select_iter` (limit / offset-only / plain), the streaming cursor with
+    `max_rows`, and the query router's text paths (parsed: columnar select, then OFFSET, then LIMIT; legacy:
+    select, then LIMIT) return the corresponding window of exactly the matching rows in every reachable state -/
+theorem derived_strategies_agree (schema : List (ColType × Bool)) (ops : List Op) (c : Cond) :
+    let t := run schema ops
+    (∀ limit offset, selectIter t c limit offset =
+        (match limit with
+         | some l => ((spec t c).drop offset).take l
+         | none => (spec t c).drop offset)) ∧
+    (∀ batch max, 0 < batch → cursorSelectMax t c batch max =
+        (match max with | some m => (spec t c).take m | none => spec t c)) ∧
+    (∀ limit offset, routerSelect t c limit offset =
+        (let rows := match offset with | some o => (spec t c).drop o | none => spec t c
+         match limit with | some l => rows.take l | none => rows)) ∧
+    (∀ limit, routerSelectLegacy t c limit =
+        (match limit with | some l => (spec t c).take l | none => spec t c)) := by
+  intro t
+  have hi : IdxInv t := run_inv schema ops
+  exact ⟨selectIter_eq t hi c, fun b m hb => cursorSelectMax_eq t hi c b hb m, routerSelect_eq t hi c,
+    routerSelectLegacy_eq t hi c⟩
+
+example : cursorSelectMax (run demoSchema demoOps) .tt 1 (some 2) = [1, 2] := by decide
+example : selectIter (run demoSchema demoOps) .tt none 1 = [2, 4] := by decide
+example : routerSelect (run demoSchema demoOps) .tt (some 1) (some 1) = [2] := by decide
+
+/-- `batch_insert` validates every row first: if one row is rejected nothing is inserted; otherwise the
+    resulting table is exactly that of inserting the rows one by one (so it is a reachable state and the index
+    invariant holds) -/
+theorem batch_insert_is_sequence_of_inserts (schema : List (ColType × Bool)) (ops : List Op)
+    (rows : List (List Value)) :
+    let t := run schema ops
+    (∀ t' ids, batchInsert t rows = .ok (t', ids) →
+        t' = rows.foldl (fun t v => applyOp t (.insert v)) t ∧ IdxInv t') ∧
+    (∀ e, batchInsert t rows = .error e → applyOp t (.batchInsert rows) = t) := by
+  intro t
+  have hi : IdxInv t := run_inv schema ops
+  refine ⟨?_, ?_⟩
+  · intro t' ids h
+    have e := batchInsert_eq_inserts t rows t' ids h
+    exact ⟨e, e ▸ insertsFold_preserves rows t hi⟩
+  · intro e h
+    simp only [applyOp, h]
+
+example : (batchInsert (run demoSchema demoOps) [[.float 0, .null], [.float 1, .int 2]]).toOption.map (·.2)
+    = some [5, 6] := by decide
+example : batchInsert (run demoSchema demoOps) [[.float 0, .null], [.null, .int 2]] = .error .nullNotAllowed := by
+  decide
+
+/-- `Condition::evaluate_with_depth` (what every row path of the engine really calls): it never returns a
+    wrong truth value -- it returns `evaluate`'s answer or `ConditionTooDeep` -- and for a condition tree no
+    deeper than `max_condition_depth` it always returns `evaluate`'s answer -/
+theorem evaluate_with_depth_agrees (mx : Nat) (c : Cond) (d id : Nat) (row : List Value) :
+    (∀ b, evalDepth mx c d id row = .ok b → b = evaluate c id row) ∧
+    (d + condDepth c ≤ mx → evalDepth mx c d id row = .ok (evaluate c id row)) :=
+  ⟨evalDepth_sound mx c d id row, evalDepth_within mx c d id row⟩
+
+example : evalDepth 1 (.and (.and .tt .tt) .tt) 0 1 [] = .error () := by decide
+example : evalDepth 1 (.and (.eq (.col 0) (.int 1)) (.and (.and .tt .tt) .tt)) 0 1 [.int 2] = .ok false := by decide
+
+/-- **the depth limit never changes which rows are touched**: in every reachable state, for every
+    `max_condition_depth` and every condition tree, each strategy run with the depth check either fails with
+    `ConditionTooDeep` or returns exactly the rows for which the condition is true (UPDATE / DELETE: either
+    fail before touching anything, or do exactly what they do without the limit); when the tree is no deeper
+    than the limit every strategy succeeds -/
+theorem depth_limited_strategies_agree (schema : List (ColType × Bool)) (ops : List Op) (mx : Nat) (c : Cond) :
+    let t := run schema ops
+    (∀ ids, selectE mx t c = .ok ids → ids = spec t c) ∧
+    (∀ n, countE mx t c = .ok n → n = (spec t c).length) ∧
+    (∀ l o ids, selectLimitE mx t c l o = .ok ids → ids = ((spec t c).drop o).take l) ∧
+    (∀ ids, columnarE mx t c = .ok ids → ids = spec t c) ∧
+    (∀ p, deleteE mx t c = .ok p → p = delete t c) ∧
+    (∀ sets p, updateE mx t c sets = .ok p → p = update t c sets) ∧
+    (condDepth c ≤ mx →
+      selectE mx t c = .ok (spec t c) ∧ countE mx t c = .ok (spec t c).length ∧
+      (∀ l o, selectLimitE mx t c l o = .ok (((spec t c).drop o).take l)) ∧
+      columnarE mx t c = .ok (spec t c) ∧ deleteE mx t c = .ok (delete t c) ∧
+      (∀ sets, updateE mx t c sets = .ok (update t c sets))) := by
+  intro t
+  have hi : IdxInv t := run_inv schema ops
+  refine ⟨?_, ?_, ?_, ?_, deleteE_sound mx t c, updateE_sound mx t c, ?_⟩
+  · intro ids h; rw [selectE_sound mx t c ids h, select_eq_spec t hi c]
+  · intro n h; rw [countE_sound mx t c n h, count_eq t hi c]
+  · intro l o ids h; rw [selectLimitE_sound mx t c l o ids h, selectLimit_eq t hi c]
+  · intro ids h; rw [columnarE_sound mx t c ids h, columnarSelect_eq t hi c]
+  · intro hd
+    refine ⟨?_, ?_, ?_, ?_, deleteE_within mx t c hd, fun sets => updateE_within mx t c sets hd⟩
+    · rw [selectE_within mx t c hd, select_eq_spec t hi c]
+    · rw [countE_within mx t c hd, count_eq t hi c]
+    · intro l o; rw [selectLimitE_within mx t c l o hd, selectLimit_eq t hi c]
+    · rw [columnarE_within mx t c hd, columnarSelect_eq t hi c]
+
+/-- beyond the limit the *outcome* does depend on the strategy (the vectorised path never checks the depth):
+    the row path fails with `ConditionTooDeep` where the columnar path returns the matching rows -/
+theorem depth_limit_outcome_strategy_dependent_witness :
+    ∃ (ops : List Op) (c : Cond),
+      selectE 0 (run [(.int, false)] ops) c = .error () ∧
+      columnarE 0 (run [(.int, false)] ops) c = .ok (spec (run [(.int, false)] ops) c) ∧
+      spec (run [(.int, false)] ops) c = [1] :=
+  ⟨[.insert [.int 1]], .and (.eq (.col 0) (.int 1)) (.rng .ge (.col 0) (.int 0)), by decide, by decide, by decide⟩
 
 /-- the defect found on the real engine (`select_with_limit` truncated the raw index ids before the re-check):
     with that variant an index changes the answer -/
